@@ -51,6 +51,9 @@ func (m *MonC02) OnReq(w *World, r *Req) {
 	ra, oka := RecordedRevision(r.After)
 	if okb && oka && ra < rb {
 		m.touch()
+		if staleTag(p, r) == "stale-read" {
+			w.Taint[r.Cluster+"|"+r.Key().String()] = "after-stale-takeover"
+		}
 		w.Report(Violation{Property: "C02", Rule: "revision-lowered", Sig: shortSite(r.Site) + "/" + staleTag(p, r), Seq: r.Seq,
 			Msg: fmt.Sprintf("pass %d of %s %s lowered the recorded revision of %s from %d to %d (%s)", p.ID, p.Ctrl, p.Key, r.Key(), rb, ra, staleTag(p, r))})
 		return
@@ -101,6 +104,9 @@ func (m *MonC02) OnReq(w *World, r *Req) {
 				}
 			}
 			if !kept {
+				if staleTag(p, r) == "stale-read" {
+					w.Taint[r.Cluster+"|"+r.Key().String()] = "after-stale-takeover"
+				}
 				w.Report(Violation{Property: "C02", Rule: "owners-kept", Sig: shortSite(r.Site) + "/" + staleTag(p, r), Seq: r.Seq,
 					Msg: fmt.Sprintf("handover of %s to %s dropped or kept as controller the former controller %s/%s: owners now %v", r.Key(), p.Key, c.Kind, c.Name, Owners(r.After, strategy))})
 				return
